@@ -38,6 +38,12 @@ struct World {
   vfs::Disk disk;
   vector<Step> hist;
   bool tainted = false;
+  // C03: the last converged full build this world descends from, and the number of changes since.
+  shared_ptr<vfs::Disk> base;
+  int nchanges = 0;
+  // statements with depfile/deps that the base build did not run although a restat statement
+  // upstream of them ran without rewriting its output (shape of the known finding F2)
+  set<string> base_restat_pruned;
 };
 
 static const char* kLog = ".ninja_log";
@@ -709,6 +715,127 @@ struct Explorer {
     }
   }
 
+  bool Converged(const Op& op, const vfs::Disk& d) {
+    vfs::Disk d2 = d;
+    RunConfig cfg;
+    cfg.args = op.cfg.args;
+    cfg.env = op.cfg.env;
+    RunResult r2 = RunNinja(&d2, cfg, {});
+    st.invocations++;
+    return r2.exit_code == 0 && r2.cmds.empty() && !r2.hang;
+  }
+
+  /// C03: after 1-2 changes to a converged tree the started set is exactly the make-semantics
+  /// set: statements whose own inputs / command / rspfile / record / outputs / reported deps were
+  /// affected, plus statements downstream (non-order-only) of an output that is actually rewritten.
+  void CheckMinimal(const Op& op, const RunResult& r, const vfs::Disk& base, const vfs::Disk& cur,
+                    const set<string>& base_restat_pruned, vector<Violation>* out) {
+    if (r.hang || r.crashed || r.horizon) return;
+    const Variant* v = VariantOf(sc, cur);
+    const Variant* v0 = VariantOf(sc, base);
+    if (!v || !v0) return;
+    lp::BuildLogModel b0, b1;
+    if (auto* f = base.Get(kLog)) b0 = lp::ParseBuildLog(f->data);
+    if (auto* f = cur.Get(kLog)) b1 = lp::ParseBuildLog(f->data);
+    auto changed_file = [&](const string& x) {
+      const vfs::File* a = base.Get(x);
+      const vfs::File* b = cur.Get(x);
+      if (!a && !b) return false;
+      if (!a || !b) return true;
+      return a->mtime != b->mtime || a->data != b->data;
+    };
+    size_t n = v->stmts.size();
+    vector<int> affected(n, 0), runs(n, -1);
+    vector<string> why(n);
+    for (size_t i = 0; i < n; ++i) {
+      const Stmt& s = v->stmts[i];
+      if (s.phony) continue;
+      auto p0 = v0->producer.find(s.id);
+      const Stmt* s0 = p0 == v0->producer.end() ? nullptr : &v0->stmts[p0->second];
+      if (!s.generator && (!s0 || s0->cmd != s.cmd || s0->rspfile_content != s.rspfile_content)) {
+        affected[i] = 1; why[i] = "command line / response file changed";
+      }
+      for (auto& o : s.spec.outs) if (!cur.Get(o)) { affected[i] = 1; why[i] = "output " + o + " missing"; }
+      for (auto* l : {&s.spec.reads, &s.spec.hidden})
+        for (auto& x : *l) {
+          auto px = v->producer.find(x);
+          bool is_source = px == v->producer.end() || v->stmts[px->second].phony;
+          if (is_source && changed_file(x)) { affected[i] = 1; why[i] = "input " + x + " changed"; }
+        }
+      if (!s.generator)
+        for (auto& o : s.outs)
+          if (b0.entries.count(o) && !b1.entries.count(o)) { affected[i] = 1; why[i] = "log record of " + o + " deleted"; }
+      if (!s.depfile.empty() && s.deps.empty() && base.Get(s.depfile) && !cur.Get(s.depfile)) {
+        affected[i] = 1; why[i] = "depfile deleted";
+      }
+    }
+    Expect ex(*v, cur);
+    function<bool(int)> Runs = [&](int i) -> bool {
+      if (runs[i] >= 0) return runs[i];
+      runs[i] = 0;  // cycle guard
+      const Stmt& s = v->stmts[i];
+      bool res = affected[i];
+      if (!res && !s.phony) {
+        for (auto* l : {&s.spec.reads, &s.spec.hidden})
+          for (auto& x : *l) {
+            auto px = v->producer.find(x);
+            if (px == v->producer.end() || v->stmts[px->second].phony) continue;
+            const Stmt& ps = v->stmts[px->second];
+            if (!Runs(px->second)) continue;
+            bool rewrote = true;
+            if (ps.restat) {
+              const vfs::File* old = cur.Get(x);
+              rewrote = !old || old->data != ex.Content(x);
+            }
+            if (rewrote) { res = true; why[i] = "input " + x + " is rewritten by " + ps.id; }
+          }
+      }
+      runs[i] = res;
+      return res;
+    };
+    vector<string> roots = TargetsOf(op, *v);
+    set<int> stmts;
+    set<string> nodes;
+    Closure(*v, roots, &stmts, &nodes);
+    set<string> expected, actual;
+    for (int si : stmts) if (!v->stmts[si].phony && Runs(si)) expected.insert(v->stmts[si].id);
+    for (auto& c : r.cmds) actual.insert(c.spec.id());
+    if (expected == actual) return;
+    for (auto& id : expected) if (!actual.count(id)) {
+      int si = v->producer.at(id);
+      const Stmt& s = v->stmts[si];
+      Violation x;
+      x.prop = "C03"; x.clause = "needed-command-not-run";
+      x.detail = "'" + id + "' should run (" + why[si] + ") but was not started; started=" + js::Dump(StartedList(r));
+      x.facts.set("stmt", id);
+      x.facts.set("has_discovered_deps", !s.deps.empty() || !s.depfile.empty());
+      set<int> up;
+      Upstream(*v, si, &up);
+      bool restat_nowrite = false;
+      for (int u : up)
+        for (auto& c : r.cmds)
+          if (c.spec.id() == v->stmts[u].id && v->stmts[u].restat && c.finished && c.status == 0 && !c.wrote)
+            restat_nowrite = true;
+      x.facts.set("restat_upstream_ran_without_rewriting", restat_nowrite);
+      x.facts.set("exit", r.exit_code);
+      out->push_back(x);
+    }
+    for (auto& id : actual) if (!expected.count(id)) {
+      auto p = v->producer.find(id);
+      Violation x;
+      x.prop = "C03"; x.clause = "unaffected-command-run";
+      x.detail = "'" + id + "' was started although nothing that affects it changed; expected set=" +
+                 [&] { string e; for (auto& i : expected) e += i + " "; return e; }();
+      x.facts.set("stmt", id);
+      if (p != v->producer.end()) {
+        x.facts.set("restat", v->stmts[p->second].restat);
+        x.facts.set("generator", v->stmts[p->second].generator);
+      }
+      x.facts.set("restat_pruned_with_unloaded_deps_in_base_build", base_restat_pruned.count(id) > 0);
+      out->push_back(x);
+    }
+  }
+
   /// C06: limits and liveness on one execution.
   void CheckLimits(const Op& op, const RunResult& r, vector<Violation>* out) {
     if (r.hang) {
@@ -858,6 +985,8 @@ struct Explorer {
     vector<int> choices;
     bool tainted = false;
     bool expand = true;
+    bool is_base = false;   // successful, content-correct full default build: a base for C03
+    set<string> restat_pruned;
   };
 
   void RunSchedules(const World& w, int opi, vector<Succ>* succ) {
@@ -906,6 +1035,9 @@ struct Explorer {
         if (Want("C05")) CheckFailures(op, r, w.disk, d, baseline.get(), &vs);
         if (Want("C05") && !op.cfg.faults.empty()) CheckRetry(op, r, w.disk, d, &vs);
         if (Want("C06")) CheckLimits(op, r, &vs);
+        if (Want("C03") && w.base && w.nchanges <= 2 && op.cfg.faults.empty() &&
+            !op.cfg.allow_interrupt && !edited_during && !sc.tags.count("manifest-regen"))
+          CheckMinimal(op, r, *w.base, w.disk, w.base_restat_pruned, &vs);
       }
       for (auto& v : vs)
         if (Want(v.prop.c_str()) || (v.prop == "C01" && !props.empty())) Report(v, hist);
@@ -926,6 +1058,20 @@ struct Explorer {
         s.choices = r.choices;
         s.tainted = content_bad;
         s.expand = !op.no_expand && !r.hang && !r.horizon;
+        s.is_base = success && !content_bad && !edited_during && op.targets.empty() && op.cfg.faults.empty() &&
+                    !op.tool && !op.dry_run;
+        if (s.is_base)
+          if (const Variant* bv = VariantOf(sc, d))
+            for (size_t si = 0; si < bv->stmts.size(); ++si) {
+              const Stmt& bs = bv->stmts[si];
+              if (bs.phony || (bs.deps.empty() && bs.depfile.empty()) || Started(r, bs.id)) continue;
+              set<int> up;
+              Upstream(*bv, (int)si, &up);
+              for (int u : up)
+                for (auto& c : r.cmds)
+                  if (c.spec.id() == bv->stmts[u].id && bv->stmts[u].restat && c.finished && c.status == 0 && !c.wrote)
+                    s.restat_pruned.insert(bs.id);
+            }
         succ->push_back(s);
       }
       if (samples.size() < 3 && r.cmds.size() >= 2 && (nsched == 1 || nsched == 3)) {
@@ -983,6 +1129,9 @@ struct Explorer {
         w0.hist.push_back({opi, {}});
       }
     }
+    if (!sc.init.empty() && sc.ops[sc.init.back()].kind == Op::kNinja && sc.ops[sc.init.back()].targets.empty() &&
+        sc.ops[sc.init.back()].cfg.faults.empty())
+      w0.base = make_shared<vfs::Disk>(w0.disk);
     unordered_set<string> seen;
     deque<pair<World, int>> frontier;
     seen.insert(WorldKey(w0.disk));
@@ -1011,6 +1160,7 @@ struct Explorer {
             nw.disk = s.disk;
             nw.hist = w.hist;
             nw.hist.push_back({(int)opi, s.choices});
+            if (s.is_base) { nw.base = make_shared<vfs::Disk>(nw.disk); nw.base_restat_pruned = s.restat_pruned; }
             frontier.push_back({nw, dpt + 1});
           }
         } else {
@@ -1021,6 +1171,7 @@ struct Explorer {
           if (!seen.insert(key).second) continue;
           st.states++;
           nw.hist.push_back({(int)opi, {}});
+          nw.nchanges = w.nchanges + 1;
           frontier.push_back({nw, dpt + 1});
         }
       }
@@ -1106,6 +1257,7 @@ static J HistToJson(const Scenario& sc, const vector<Step>& h) {
 
 int main(int argc, char** argv) {
   vx::Args a(argc, argv);
+  nx::InitCapture();
   string file = a.Get("scenarios");
   long shard = a.GetInt("shard", 0), nshards = a.GetInt("nshards", 1);
   set<string> props;
@@ -1121,8 +1273,6 @@ int main(int argc, char** argv) {
   }
   double budget = atof(a.Get("seconds", "0").c_str());
   double t0 = Explorer::Now();
-  ifstream in(file);
-  if (!in) { fprintf(stderr, "cannot open %s\n", file.c_str()); return 2; }
   string line;
   long idx = -1;
   Stats total;
@@ -1156,6 +1306,8 @@ int main(int argc, char** argv) {
     if (rc1 != rc2) { dprintf(100, "REPLAYS DISAGREE\n"); return 2; }
     return rc1;
   }
+  ifstream in(file);
+  if (!in) { fprintf(stderr, "cannot open %s\n", file.c_str()); return 2; }
   while (getline(in, line)) {
     if (line.empty()) continue;
     ++idx;
